@@ -140,7 +140,9 @@ def explore(ctx):
             combos.append(faults)
     rnd.shuffle(combos)
     singles = [c for c in combos if len(c) == 1]
-    sel = singles + [c for c in combos if len(c) > 1][: (14 if ctx.quick() else 150)]
+    # (the third test case has braces in its name: the misuse that names it is always included)
+    sel = singles + [('ok', 'ok', 'missing'), ('ok', 'ok', 'unreadable'), ('ok', 'ok', 'unwritable'), ('ok', 'ok', 'absolute')] \
+        + [c for c in combos if len(c) > 1][: (14 if ctx.quick() else 150)]
     for faults in sel:
         for script_fault, sanity_ok in ([('ok', True)] if any(f != 'ok' for f in faults) and rnd.random() < 0.6 else
                                         [('ok', True), ('missing', True), ('noexec', True), ('ok', False)]):
